@@ -31,7 +31,11 @@ def json_schema_property_to_param(param, required):
     if "description" in _param:
         _param["doc"] = _param.pop("description")
 
-    if _param.get("type"):
+    if _param.pop("format", None) == "date-time" and _param.get("type") == "string":
+        # what the emitter writes for a `datetime`
+        del _param["type"]
+        _param["typ"] = "datetime"
+    elif _param.get("type"):
         _param["typ"] = json_type2typ[_param.pop("type")]
 
     if _param.get("pattern"):
